@@ -17,6 +17,13 @@
       garbage              bytes that are no serialization of anything
       dir, unreadable      a directory / an object that cannot be opened in place of the file
 
+   `unreadable` stands for every way in which the PATH of the file cannot be
+   used, whatever the error the operating system answers with (ELOOP, ENOTDIR,
+   ENOENT of the task directory, ENAMETOOLONG for a task name longer than
+   NAME_MAX or a path longer than PATH_MAX, EACCES, EPERM, EIO, ESTALE,
+   EMFILE ...): the file can be neither read nor written in place.  `absent`
+   includes a dangling symbolic link.  The binding produces all of them.
+
    The binding expands `partial` to EVERY byte length of the concrete file.
 
    HOW a file is written is not part of the property.  The specification is a
